@@ -590,8 +590,10 @@ func (w *Writer) Close() error {
 	if w.err == nil {
 		w.err = w.chunkWriter.Close()
 	}
-	if err := w.CodecWriter.Close(); w.err == nil {
-		w.err = err
+	if w.CodecWriter != nil {
+		if err := w.CodecWriter.Close(); w.err == nil {
+			w.err = err
+		}
 	}
 
 	if w.err == nil {
